@@ -172,7 +172,9 @@ class FakeSocket(object):
                     st.server.kill()
             w.fired('sendall_' + kind)
             w.fault_marks.append(('sendall', st.index, k, st.delivered_total,
-                                  len(st.out_bytes), w.next_seq()))
+                                  len(st.out_bytes), w.next_seq(),
+                                  st.delivered_total + len(st.tls_buf or b'')
+                                  + sum(len(c) for c in st.inq)))
             if kind == 'epipe':
                 raise OSError(errno.EPIPE, 'Broken pipe')
             if kind == 'reset':
